@@ -8,7 +8,7 @@ MANIFEST = dict(
    note="Trusted: Lean kernel; axioms propext/Classical.choice/Quot.sound at most; harness + comparer; the go/ast classification of method bodies (engine / fwd / must / inherit / own). The type-specific parts of the complex path (validator, pointer pre-pass of the checks, checks on a default or on nil, transform) are parameters of the model, so its theorem holds for every instantiation but says nothing about what a validator does; for the one type whose pair is the bare complex engine pair (ZodSlice) the result conversion of Parse is transcribed (sliceConv) and proved equal to ParseComplexStrict's. The Faithful hypotheses of c09_history are tied to the code by the frame observation. Type-local StrictParse implementations (16 types) are judged by the statement directly (entry points must agree); their deviations are listed as known findings by (type, Parse outcome class, StrictParse outcome class) and pending/C09-strict-*.diff route 15 of them through Parse (suite green, all classes but StringBool's disappear). Pointer identity of results is C15's business and not compared here.",
    design="DESIGN.md §5 C09")
 
-MODULES = ["Gozod.Proofs.C09", "Gozod.Proofs.C09Complex", "Gozod.Proofs.C09Table"]
+MODULES = ["Gozod.Proofs.C09", "Gozod.Proofs.C09Complex", "Gozod.Proofs.C09Table", "Gozod.Proofs.C09TypeLocal"]
 THEOREMS = ["Gozod.C09." + t for t in [
     # complex engine path, legacy witnesses, wrappers (Proofs/C09Complex.lean)
     "c09_complex_strict_eq_parse", "sliceConv_ok", "c09_slice_strict_eq_parse", "adapt_preserves", "c09_complex_same_verdict_value",
@@ -17,6 +17,12 @@ THEOREMS = ["Gozod.C09." + t for t in [
     "c09_parseAny_eq_parse_all", "c09_must_returns_or_panics", "must_returned_iff", "must_panicked_iff", "must_congr",
     # the entry-point table regenerated from types/*.go (Proofs/C09Table.lean)
     "c09_table_as_expected", "c09_table_wrappers", "c09_table_covered", "c09_table_via_parse", "c09_table_type_local", "c09_table_nonempty",
+    "c09_table_bases", "c09_table_mixed", "c09_table_transcribed", "c09_table_run_only",
+    # the transcribed type-local pairs (Proofs/C09TypeLocal.lean)
+    "c09_bigint_strict_eq_parse", "bigParse_nil_irrelevant", "bigNilPass_not_engine", "fileResult_eq_adapt", "fileToR_adapt_false",
+    "c09_file_strict_eq_parse", "c09_file_is_engine_pair", "c09_function_same_verdict_value", "c09_function_strict_eq_parse",
+    "c09_function_pointer_shape_witness", "c09_function_full_false", "parse_structInternals", "structParse_eq", "c09_struct_partial",
+    "c09_struct_rewrite_witness", "c09_struct_full_false",
     "checked_ptr_irrelevant", "checked_no_checks", "c09_strict_eq_parse", "c09_parseAny_eq_parse",
     "strictParseWith_sound", "strictFast_checks_empty", "run_ok_of_read_only", "pinned_faithful", "runEP_eq_parse", "step_spec",
     "c09_history", "c09_history_pinned", "c09_history_entrypoints_agree", "c09_parses_do_not_matter",
@@ -114,13 +120,16 @@ def _run(res):
             C.tie_broken(res, "fingerprint " + k, "the Go function %s mirrors is gone or renamed" % lean_def)
         if k.startswith("types/slice.go") or "Complex" in k or "validatePointer" in k or "validateValue" in k:
             aimed = sorted(set(aimed) | {"ZodSlice"})
+        for f, t in (("types/bigint.go", "ZodBigInt"), ("types/file.go", "ZodFile"), ("types/function.go", "ZodFunction"), ("types/struct.go", "ZodStruct")):
+            if k.startswith(f):
+                aimed = sorted(set(aimed) | {t})
         if k.startswith("types/integer.go"):
             aimed = sorted(set(aimed) | {"ZodIntegerTyped"})
         if k.startswith("types/string.go") or "Primitive" in k or "processModifiersCore" in k:
             aimed = sorted(set(aimed) | {"ZodString", "ZodIntegerTyped"})
     if changed:
         res.notes.append("modelled Go functions edited since the expectation was recorded: " + "; ".join("%s (%s)" % (c[0], c[2]) for c in changed) + "; run aimed at " + ", ".join(aimed))
-    data, err = C.correspond(res, "C09", extra_args=(["-aim", ",".join(aimed)] if aimed else []), feed_impl=True)
+    data, err = C.correspond(res, "C09", extra_args=["-repo", C.REPO] + (["-aim", ",".join(aimed)] if aimed else []), feed_impl=True)
     if data is None:
         C.tie_broken(res, "correspondence C09/ParsePrimitiveStrict", err)
         return res.finish()
@@ -130,6 +139,11 @@ def _run(res):
     unreached = [t for t in table_types if not dist.get("gotype:" + t)]
     res.coverage["schema_types_in_table"] = len(table_types)
     res.coverage["schema_types_reached"] = len(table_types) - len(unreached)
+    # every zero-argument constructor of types/*.go must be in the harness' registry (the directed run starts from them)
+    missing = data[3].get("unregistered_ctors") or []
+    res.coverage["constructors_registered"] = data[3].get("registered_ctors", 0)
+    if missing:
+        C.tie_broken(res, "coverage C09/constructors", "constructors of types/*.go the directed run does not know (python3 harness/cmd/c09/mkregistry.py <repo>): " + ", ".join(missing))
     if unreached:
         C.tie_broken(res, "coverage C09/entry-point table", "schema types of Gen/EntryPoints.lean no generated case reaches: " + ", ".join(unreached))
     C.decide(res, "C09", data, key, "C09/ParsePrimitive+ParsePrimitiveStrict", describe=describe)
